@@ -134,6 +134,8 @@ fn check(prop: &str, tier: &str, seed: u64, only: Option<&str>, jobs: usize) -> 
     let par = (2 * ncpu / workers).clamp(1, 8);
     let dir = format!("{}/results-{}-{}-{}", std::env::var("MAYVERIF_TMP").unwrap_or_else(|_| "/verif/target-hooks".to_string()), prop, tier, std::process::id());
     std::fs::create_dir_all(&dir).unwrap();
+    // socket files of the network scenarios live (and die) with the result directory
+    std::env::set_var("MAYVERIF_SOCKDIR", &dir);
     // shared work counter
     let counter = unsafe {
         let p = libc::mmap(std::ptr::null_mut(), 4096, libc::PROT_READ | libc::PROT_WRITE, libc::MAP_SHARED | libc::MAP_ANONYMOUS, -1, 0);
